@@ -120,6 +120,9 @@ func (e *Engine) findFunc(pkgPath, name string) *ssa.Function {
 	if sp == nil {
 		return nil
 	}
+	// "F__body": a second contract of F, verified against F's body but never used at call
+	// sites (they see F's own — typically trusted, ghost-recording — contract)
+	name = strings.TrimSuffix(name, "__body")
 	if i := strings.Index(name, "."); i >= 0 {
 		tn, mn := name[:i], name[i+1:]
 		tm, ok := sp.Members[tn].(*ssa.Type)
